@@ -461,14 +461,14 @@ def copy_db(db, how, scratch, tag):
         from cogent3.util.deserialise import deserialise_object
 
         return deserialise_object(db.to_json())
-    p = scratch / f"c17_w_{tag}.sqlitedb"
-    if p.exists():
-        p.unlink()
+    _COPY_N[0] += 1
+    p = scratch / f"c17_w_{tag}_{_COPY_N[0]}.sqlitedb"  # never reuse a file another connection may hold open
     db.write(p)
     return type(db)(source=str(p))
 
 
 COPIES = ["deepcopy", "pickle", "json", "write"]
+_COPY_N = [0]
 
 
 def all_recs(db, attrs=True):
